@@ -826,7 +826,7 @@ class Interp:
         elif isinstance(target, ast.Subscript):
             b = self.ev_quiet(target.value, st)
             if isinstance(b, V) and b.tag == 'proj' and (b.a.startswith('field:') or b.a.startswith('elem:')):
-                self.mutation(target, b.b, b.a.split(':', 1)[1], 'setitem', getattr(target._parent, 'value', None), st)
+                self.mutation(target, b.b, b.a.split(':', 1)[1], 'setslice' if isinstance(target.slice, ast.Slice) else 'setitem', getattr(target._parent, 'value', None), st)
             elif isinstance(target.value, ast.Name) and isinstance(b, V) and b.tag == 'dictkeys':
                 k = self.ev_quiet(target.slice, st)
                 st.env[target.value.id] = V('dictkeys', Name(b.a.names | (k.names if isinstance(k, Name) else {UNK})))
